@@ -182,6 +182,11 @@ func c06Run(c *core.Ctx, k c06Case) {
 		if e == k.nEndpoints-1 && c.Rng.Intn(2) == 0 {
 			ep.IsDefault = boolPtr(true)
 		}
+		if c.Rng.Intn(3) == 0 { // an attribute the schema allows on any endpoint and that has no meaning on an ACS: never a target
+			rl := fmt.Sprintf("https://sp.example.com/saml/response-location%d", e)
+			ep.ResponseLocation = &rl
+			c.Count("acs_endpoints_with_a_response_location")
+		}
 		desc.AssertionConsumerServices = append(desc.AssertionConsumerServices, ep)
 	}
 	if k.encrypt {
